@@ -213,3 +213,38 @@ Definition spec_record_layout (f : Z) (ebs : list eb_desc) (hv : bool) (ps : Z) 
    "otherwise, it must be set to zero" ---- *)
 Definition spec_legacy_ok (fmt count legacy : Z) : bool :=
   (legacy =? 0) || ((fmt <? 6) && (legacy =? count) && (count <? 2 ^ 32)).
+
+(* ---- payloads of the other VLRs the specification defines (LAS 1.4 R15 sections 2.6 / 2.7, GeoTIFF key directory), typed in
+   from the specification; laspy's structure-field names are used as labels only ---- *)
+(* Classification Lookup (User ID "LASF_Spec", Record ID 0): Record Length after Header 256 recs x 16 byte struct len;
+   struct CLASSIFICATION { unsigned char ClassNumber; char Description[15]; } *)
+Definition spec_lookup_record : layout := [
+  (KUInt, 1, "class_number");     (* ClassNumber   unsigned char   1 byte   *)
+  (KStr, 15, "description")       (* Description   char[15]        15 bytes *)
+]%nat.
+Definition spec_lookup_table_records : Z := 256.
+Definition spec_lookup_table_size : Z := 4096.
+(* Waveform Packet Descriptor (User ID "LASF_Spec", Record ID n, 99 < n < 355): 26 bytes *)
+Definition spec_waveform_descriptor : layout := [
+  (KUInt, 1, "bits_per_sample");              (* Bits per Sample            unsigned char   1 byte  *)
+  (KUInt, 1, "waveform_compression_type");    (* Waveform Compression Type  unsigned char   1 byte  *)
+  (KUInt, 4, "number_of_samples");            (* Number of Samples          unsigned long   4 bytes *)
+  (KUInt, 4, "temporal_sample_spacing");      (* Temporal Sample Spacing    unsigned long   4 bytes *)
+  (KF64, 8, "digitizer_gain");                (* Digitizer Gain             double          8 bytes *)
+  (KF64, 8, "digitizer_offset")               (* Digitizer Offset           double          8 bytes *)
+]%nat.
+(* GeoKeyDirectoryTag Record (User ID "LASF_Projection", Record ID 34735): struct sGeoKeys { unsigned short wKeyDirectoryVersion;
+   wKeyRevision; wMinorRevision; wNumberOfKeys; struct sKeyEntry { unsigned short wKeyID; wTIFFTagLocation; wCount; wValue_Offset; } pKey[1]; } *)
+Definition spec_geokeys_header : layout := [
+  (KUInt, 2, "key_directory_version"); (KUInt, 2, "key_revision"); (KUInt, 2, "minor_revision"); (KUInt, 2, "number_of_keys")
+]%nat.
+Definition spec_geokey_entry : layout := [
+  (KUInt, 2, "id"); (KUInt, 2, "tiff_tag_location"); (KUInt, 2, "count"); (KUInt, 2, "value_offset")
+]%nat.
+(* by the short names the reference codec is asked with *)
+Definition spec_known_payload (name : string) : option layout :=
+  if String.eqb name "lookup" then Some spec_lookup_record
+  else if String.eqb name "waveform" then Some spec_waveform_descriptor
+  else if String.eqb name "geokeys_header" then Some spec_geokeys_header
+  else if String.eqb name "geokey" then Some spec_geokey_entry
+  else None.
